@@ -813,7 +813,12 @@ func (vx *Vaxis) handleSequence(seq ansi.Sequence) {
 		switch seq.Final {
 		case 'c':
 			if len(seq.Intermediate) == 1 && seq.Intermediate[0] == '?' {
-				for _, ps := range seq.Parameters {
+				// The first parameter is the service class (4 there is
+				// a VT132, not sixel graphics); the extensions follow
+				for i, ps := range seq.Parameters {
+					if i == 0 {
+						continue
+					}
 					switch ps[0] {
 					case 4:
 						vx.PostEventBlocking(capabilitySixel{})
